@@ -187,9 +187,11 @@ def check_success(case):
         out += probe('with-block exit')
     except Exception as exc:  # noqa: BLE001
         out.append(fail('load-raises', f'{cs} (with-block): {exc!r}', exc=exc_sig(exc), charset=cs))
-    for source, data in (('saved', b), ('reference', reference_bytes(case))):
+    # (the third pass loads with clip=True: clipping concerns data bytes of channel and sysex messages, never the bytes of
+    # a text - round 14: one clamp-to-127 for everything the reader fetches)
+    for source, data in (('saved', b), ('reference', reference_bytes(case)), ('saved, clip=True', b)):
         try:
-            back = mido.MidiFile(file=io.BytesIO(data), charset=cs)
+            back = mido.MidiFile(file=io.BytesIO(data), charset=cs, clip=source.endswith('clip=True'))
             got = [getattr(m, TEXT_ATTR[m.type]) for m in back.tracks[0] if m.type in TEXT_ATTR]
             if got != [text for _, text in case['texts']]:
                 out.append(fail('text-roundtrip', f'{cs} ({source}): loaded {got!r}, expected '
